@@ -153,13 +153,14 @@ ROUTINES = {("reg", "size"): lambda b: "size_reg_code", ("reg", "ord"): lambda b
             ("reg", "not"): lambda b: "(not_reg_code %d)" % b, ("reg", "malloc"): lambda b: "malloc_reg_code",
             ("stack", "size"): lambda b: "size_stack_code", ("stack", "ord"): lambda b: "ord_stack_code",
             ("stack", "not"): lambda b: "(not_stack_code %d)" % b,
-            ("stack", "malloc"): lambda b: "(malloc_stack_code %d)" % b}
+            ("stack", "malloc"): lambda b: "(malloc_stack_code %d)" % b,
+            ("stack", "tstdlib_label_local_memcpy_reg"): lambda b: "(memcpy_code %d)" % b}
 RHEADER = """From Coq Require Import ZArith List.
 From Hera.Lib Require Import Py Machine.
 From Hera.Gen Require Import Ops.
 From Hera.Spec Require Import ISA.
 From Hera.Model Require Import InstrOf.
-From Hera.Proofs Require Import C19_Routines C19_Not C19_Stack C19_NotStack C19_Malloc C19_MallocStack.
+From Hera.Proofs Require Import C19_Routines C19_Not C19_Stack C19_NotStack C19_Malloc C19_MallocStack C19_Memcpy.
 Import ListNotations.
 Open Scope Z_scope.
 Definition keyof (p : opname * list Z) : list Z := match instr_of (fst p) (snd p) with Some i => instr_key i | None => [] end.
